@@ -3,8 +3,10 @@
 Copies a confirmed sub-agent mutation into /verif/seeded/<prop>-<X>/ with meta.json."""
 import sys, os, shutil, json, subprocess
 prop, x, caught, missed, needs = sys.argv[1:6]
-src=f'/tmp/mut/{prop}-out'
-dst=f'/verif/seeded/{prop}-{x}'
+suffix = sys.argv[6] if len(sys.argv) > 6 else ''
+name = sys.argv[7] if len(sys.argv) > 7 else x
+src=f'/tmp/mut/{prop}-out{suffix}'
+dst=f'/verif/seeded/{prop}-{name}'
 os.makedirs(dst, exist_ok=True)
 shutil.copy(f'{src}/mut{x}.diff', f'{dst}/patch.diff')
 shutil.copy(f'{src}/demo{x}.diff', f'{dst}/demo.diff')
